@@ -52,6 +52,11 @@ iwrc iwtp_schedule(struct iwtp *tp, iwtp_task_f fn, void *arg) {
   };
 
   pthread_mutex_lock(&tp->mtx);
+  if (tp->shutdown) {
+    rc = IW_ERROR_INVALID_STATE;
+    pthread_mutex_unlock(&tp->mtx);
+    goto finish;
+  }
   if (tp->queue_limit && (tp->queue_size + 1 > tp->queue_limit)) {
     rc = IW_ERROR_OVERFLOW;
     pthread_mutex_unlock(&tp->mtx);
